@@ -90,7 +90,7 @@ def F(kind, what, sig=None):
 _W = {}
 
 
-class CaseTimeout(Exception):
+class CaseTimeout(BaseException):  # not an Exception: code under test that catches Exception (Experiment.run does) must not swallow the timer
     pass
 
 
